@@ -692,6 +692,9 @@ fn reply_probe(w: &mut World, unsigned: &[u8], key_idx: usize, time: u64, now: u
     }
     let effect = o.zone_changed || o.axfr_data;
     let zbit = spec.flags & F_Z != 0;
+    // the server turned the request away as unauthentic: REFUSED / NOTAUTH, or a TSIG error in the reply
+    let reply_tsig_error = o.replies.first().and_then(|r| reftsig::locate(r).ok()).map(|t| t.error).unwrap_or(0);
+    let refused = matches!(o.rcode, Some(REFUSED) | Some(NOTAUTH) | None) || reply_tsig_error != 0;
     match expectation(&spec, &w.zone0) {
         Expect::Effect => {
             if !effect && zbit {
@@ -706,7 +709,7 @@ fn reply_probe(w: &mut World, unsigned: &[u8], key_idx: usize, time: u64, now: u
             p.count(&format!("accepted/{req_kind}"));
         }
         Expect::PrereqFails => {
-            if matches!(o.rcode, Some(REFUSED) | Some(NOTAUTH) | None) {
+            if refused {
                 if zbit {
                     p.count("dontcare/z-request-refused");
                     return p;
@@ -718,7 +721,7 @@ fn reply_probe(w: &mut World, unsigned: &[u8], key_idx: usize, time: u64, now: u
             p.count(if effect { "authentic/prereq-fails-by-reference-but-took-effect" } else { "authentic/prereq-failed-no-effect" });
         }
         Expect::DontCare => {
-            if matches!(o.rcode, Some(REFUSED) | Some(NOTAUTH) | None) && !effect {
+            if refused && !effect {
                 p.count("dontcare/authentic-noop-or-prescan-refused");
                 return p;
             }
